@@ -4,6 +4,7 @@ from sedvc.contractlib import Contract, contract
 from sedvc.sym import Sc, compare, band, bor, bnot, implies, ite, arith, smin
 from sedvc.values import Quantity, Opaque
 from .integrate import strictly_increasing
+import fractions
 
 SED = 'sedfitter.sed.sed.SED'
 U = units.BASE
@@ -360,3 +361,4 @@ class SedWrite(Contract):
             SA, AP = c.A(c2.get('APERTURE')), c.A(ap)
             out['apertures_stored'] = [compare('==', SA.n, AP.n), c.forall(AP.n, lambda i: SA[i] == AP[i], 'apertures')]
         return out
+
